@@ -361,35 +361,32 @@ impl Parser {
     }
 
     fn parse_octal(&mut self, _: bool) -> Expression {
+        // Take the literal before the assignment check: reporting an invalid
+        // assignment synchronizes the parser and moves the current token
+        let token = self.current.clone();
         self.peek_invalid_assignment(false);
-        let str_value = &self.current.literal[2..];
+        let str_value = &token.literal[2..];
         if let Ok(value) = i64::from_str_radix(str_value, 8) {
-            Expression::Integer(IntegerLiteral {
-                token: self.current.clone(),
-                value,
-            })
+            Expression::Integer(IntegerLiteral { token, value })
         } else {
-            let msg = format!(
-                "could not parse '{}' as an octal integer",
-                self.current.literal
-            );
+            let msg = format!("could not parse '{}' as an octal integer", token.literal);
             self.push_error(&msg);
             Expression::Invalid
         }
     }
 
     fn parse_hexadecimal(&mut self, _: bool) -> Expression {
+        // Take the literal before the assignment check: reporting an invalid
+        // assignment synchronizes the parser and moves the current token
+        let token = self.current.clone();
         self.peek_invalid_assignment(false);
-        let str_value = &self.current.literal[2..];
+        let str_value = &token.literal[2..];
         if let Ok(value) = i64::from_str_radix(str_value, 16) {
-            Expression::Integer(IntegerLiteral {
-                token: self.current.clone(),
-                value,
-            })
+            Expression::Integer(IntegerLiteral { token, value })
         } else {
             let msg = format!(
                 "could not parse '{}' as a hexadecimal integer",
-                self.current.literal
+                token.literal
             );
             self.push_error(&msg);
             Expression::Invalid
@@ -397,18 +394,15 @@ impl Parser {
     }
 
     fn parse_binary(&mut self, _: bool) -> Expression {
+        // Take the literal before the assignment check: reporting an invalid
+        // assignment synchronizes the parser and moves the current token
+        let token = self.current.clone();
         self.peek_invalid_assignment(false);
-        let str_value = &self.current.literal[2..];
+        let str_value = &token.literal[2..];
         if let Ok(value) = i64::from_str_radix(str_value, 2) {
-            Expression::Integer(IntegerLiteral {
-                token: self.current.clone(),
-                value,
-            })
+            Expression::Integer(IntegerLiteral { token, value })
         } else {
-            let msg = format!(
-                "could not parse '{}' as a binary integer",
-                self.current.literal
-            );
+            let msg = format!("could not parse '{}' as a binary integer", token.literal);
             self.push_error(&msg);
             Expression::Invalid
         }
